@@ -342,7 +342,16 @@ func altScalar(rt *rapid.T, n *ttlvref.Node, enc string, notes *[]string) (strin
 	case ttlvref.DateTime:
 		t := time.Unix(n.I, 0).UTC()
 		*notes = append(*notes, "date-zoned-or-fractional")
-		switch rapid.IntRange(0, 2).Draw(rt, "dateform") {
+		switch rapid.IntRange(0, 4).Draw(rt, "dateform") {
+		case 3, 4:
+			// the hexadecimal epoch form (JSON) / a plain year boundary, with values around the years the text forms can carry
+			sec := rapid.SampledFrom([]int64{n.I, 253402300799, 253402300800, 253402300800 + 86400*366, 1 << 40, -62135596800, -62135596801, -62167219200, 1<<63 - 1, -1 << 63, 0, -1}).Draw(rt, "epoch")
+			if enc == "json" {
+				*notes = append(*notes, "date-hex-epoch")
+				return q(fmt.Sprintf("0x%016X", uint64(sec))), true
+			}
+			*notes = append(*notes, "date-year-boundary")
+			return q(time.Unix(sec, 0).UTC().Format(time.RFC3339)), true
 		case 0:
 			return q(t.In(time.FixedZone("", 2*3600+1800)).Format(time.RFC3339)), true
 		case 1:
